@@ -233,6 +233,34 @@ pub fn exec(rest: &str, out: &mut Out) -> (String, bool) {
         cr.canonicalize();
         out.oracle(cr.compact_print().to_string() == c.compact_print().to_string() && cr == c, "canonicalization depends on the content only (value rebuilt with heap-backed buffers)", || show_value(&cr));
     }
+    // every way of asking for it gives the same result: Value::canonicalize_with (caller's buffer, a
+    // used one as well), Object::canonicalize / Object::canonicalize_with called directly on the root
+    // object, and on the objects one level down
+    {
+        let mut buf = ryu_js::Buffer::new();
+        let _ = buf.format(1.2345e-7);
+        let mut c1 = v.clone();
+        c1.canonicalize_with(&mut buf);
+        out.oracle(c1 == c, "Value::canonicalize_with = Value::canonicalize", || show_value(&c1));
+        if let Value::Object(o) = &v {
+            let mut o1 = o.clone();
+            o1.canonicalize();
+            let mut o2 = o.clone();
+            o2.canonicalize_with(&mut buf);
+            let (c1, c2) = (Value::Object(o1), Value::Object(o2));
+            out.oracle(c1 == c && c2 == c, "Object::canonicalize / canonicalize_with on the root object = Value::canonicalize", || format!("{} / {}", show_value(&c1), show_value(&c2)));
+            out.count("object_entry_point");
+        }
+        if let Value::Array(items) = &v {
+            for (i, x) in items.iter().enumerate() {
+                if let (Value::Object(o), Value::Array(ci)) = (x, &c) {
+                    let mut o1 = o.clone();
+                    o1.canonicalize();
+                    out.oracle(ci.get(i) == Some(&Value::Object(o1.clone())), "Object::canonicalize on an item = that item of the canonical array", || show_value(&Value::Object(o1.clone())));
+                }
+            }
+        }
+    }
     let ijson = is_ijson(&v);
     out.count(if ijson { "ijson" } else { "not_ijson" });
     // the number table of the request is what the real code does now (ties the model's opaque numCanon)
